@@ -661,3 +661,64 @@ Proof.
   - destruct (read_u32 r) as [n r1]. destruct (negb _); [exact I|].
     apply no_panic_bind; [apply sentries_no_panic; [apply sdec_prim_no_panic|apply IH]|]. intros [vs r2] _. exact I.
 Qed.
+
+(* ---------- the proportionality guard on the stream path only ever exits early ---------- *)
+(* what a stream decode WITH the limit returns, unless it is Excess, is what the run WITHOUT the limit returns: the
+   harness runs the model with a limit (to stay executable on hostile counts), the theorems above are about lim = None *)
+Lemma sdec_prim_guard k p r : not_excess (sdec_prim (Some k) p r) = true -> sdec_prim None p r = sdec_prim (Some k) p r.
+Proof.
+  unfold sdec_prim. destruct (int_spec p) as [[w sg]|]; [reflexivity|]. destruct p; try reflexivity.
+  destruct (read_u32 r) as [n r1]. cbn [count_within negb]. destruct (_ <=? _)%N; cbn [negb]; [reflexivity|discriminate].
+Qed.
+Lemma selems_guard (d d' : SD) : (forall r, not_excess (d r) = true -> d' r = d r) -> forall c r,
+  not_excess (sdec_elems d c r) = true -> sdec_elems d' c r = sdec_elems d c r.
+Proof.
+  intros HR. induction c as [|c IH]; intros r G; cbn [sdec_elems] in *; [reflexivity|].
+  apply (bind_refines (@not_excess) not_excess_bind); [exact G|apply HR|]. intros [v r1] _ G1.
+  apply (bind_refines (@not_excess) not_excess_bind); [exact G1|apply IH|]. intros [vs r2] _ _. reflexivity.
+Qed.
+Lemma sentries_guard (dk dk' d d' : SD) : (forall r, not_excess (dk r) = true -> dk' r = dk r) ->
+  (forall r, not_excess (d r) = true -> d' r = d r) -> forall c r,
+  not_excess (sdec_entries dk d c r) = true -> sdec_entries dk' d' c r = sdec_entries dk d c r.
+Proof.
+  intros HK HR. induction c as [|c IH]; intros r G; cbn [sdec_entries] in *; [reflexivity|].
+  apply (bind_refines (@not_excess) not_excess_bind); [exact G|apply HK|]. intros [kv r1] _ G1.
+  apply (bind_refines (@not_excess) not_excess_bind); [exact G1|apply HR|]. intros [v r2] _ G2.
+  apply (bind_refines (@not_excess) not_excess_bind); [exact G2|apply IH|]. intros [vs r3] _ _. reflexivity.
+Qed.
+Lemma sfields_guard (d d' : ty -> SD) : (forall t r, not_excess (d t r) = true -> d' t r = d t r) -> forall fs r,
+  not_excess (sdec_fields d fs r) = true -> sdec_fields d' fs r = sdec_fields d fs r.
+Proof.
+  intros HR. induction fs as [|f fs IH]; intros r G; cbn [sdec_fields] in *; [reflexivity|].
+  apply (bind_refines (@not_excess) not_excess_bind); [exact G|apply HR|]. intros [v r1] _ G1.
+  destruct (is_ref f && err r1); [reflexivity|].
+  apply (bind_refines (@not_excess) not_excess_bind); [exact G1|apply IH|]. intros [vs r2] _ _. reflexivity.
+Qed.
+Lemma smsg_guard (d d' : ty -> SD) fs : (forall t r, not_excess (d t r) = true -> d' t r = d t r) -> forall g r acc,
+  not_excess (smsg_loop d fs g r acc) = true -> smsg_loop d' fs g r acc = smsg_loop d fs g r acc.
+Proof.
+  intros HR. induction g as [|g IH]; intros r acc G; cbn [smsg_loop] in *; [reflexivity|].
+  destruct (read_byte0 r) as [i r1]. destruct (index_of i fs) as [[k f]|]; [|reflexivity].
+  apply (bind_refines (@not_excess) not_excess_bind); [exact G|apply HR|]. intros [v r2] _ G1.
+  destruct (is_ref f && err r2); [reflexivity|]. apply IH. exact G1.
+Qed.
+Theorem stream_guard_only_exits_early s k : forall fuel t r,
+  not_excess (sdec s (Some k) fuel t r) = true -> sdec s None fuel t r = sdec s (Some k) fuel t r.
+Proof.
+  induction fuel as [|fuel IH]; intros t r G; [reflexivity|]. destruct t; cbn [sdec] in *.
+  - now apply sdec_prim_guard.
+  - destruct (s n) as [[fs|fs deps|brs]|]; try reflexivity.
+    + apply (bind_refines (@not_excess) not_excess_bind); [exact G| |intros [vs r1] _ _; reflexivity].
+      apply sfields_guard. intros t r0. apply IH.
+    + destruct (read_u32 r) as [len r1].
+      apply (bind_refines (@not_excess) not_excess_bind); [exact G| |intros [l r2] _ _; reflexivity].
+      apply smsg_guard. intros t r0. apply IH.
+    + destruct (read_u32 r) as [len r1]. destruct (read_byte0 _) as [i r2]. destruct (find _ brs) as [[j m]|]; [|reflexivity].
+      apply (bind_refines (@not_excess) not_excess_bind); [exact G|apply IH|intros [v r3] _ _; reflexivity].
+  - destruct (read_u32 r) as [n r1]. cbn [count_within negb] in *. destruct (_ <=? _)%N; cbn [negb] in *; [|discriminate].
+    apply (bind_refines (@not_excess) not_excess_bind); [exact G| |intros [vs r2] _ _; reflexivity].
+    apply selems_guard. intros r0. apply IH.
+  - destruct (read_u32 r) as [n r1]. cbn [count_within negb] in *. destruct (_ <=? _)%N; cbn [negb] in *; [|discriminate].
+    apply (bind_refines (@not_excess) not_excess_bind); [exact G| |intros [vs r2] _ _; reflexivity].
+    apply sentries_guard; [intros r0; apply sdec_prim_guard|intros r0; apply IH].
+Qed.
